@@ -1057,8 +1057,8 @@ Proof.
   destruct (render_enum_arms 0 vs) as [arms| |] eqn:R; cbn [res_bind] in H; try discriminate.
   destruct (arms_full _ _ _ R) as [L F].
   destruct arms as [|a arms]; inversion H; subst; [reflexivity|]. clear H.
-  cbn [match_exhaustive]. destruct (Nat.ltb_spec (length (a :: arms)) (length vs)) as [Lt|Ge];
-    [reflexivity|].
+  unfold match_exhaustive. cbn [length] in L, F |- *.
+  destruct (Nat.ltb_spec (S (length arms)) (length vs)) as [Lt|Ge]; [reflexivity|].
   cbn [orb]. apply forallb_forall. intros k Hk. apply covers_in. rewrite F by lia. exact Hk.
 Qed.
 
@@ -1083,19 +1083,19 @@ Proof.
   intros vs arms w H. unfold render_enum_source, render_enum in H.
   destruct (render_enum_arms 0 vs) as [arms0| |] eqn:R; cbn [res_bind] in H; try discriminate.
   destruct (arms_full _ _ _ R) as [L F].
-  destruct arms0 as [|a arms0]; inversion H; subst. clear H.
-  destruct (Nat.ltb_spec (length (a :: arms0)) (length vs)) as [Lt|Ge]; split; intros W;
+  destruct arms0 as [|a arms0]; inversion H; subst. clear H. cbn [length] in L, F |- *.
+  destruct (Nat.ltb_spec (S (length arms0)) (length vs)) as [Lt|Ge]; split; intros W;
     try reflexivity; try discriminate.
   - (* fewer arms than variants: some position is not covered *)
     destruct (forallb (covers (a :: arms0)) (seq 0 (length vs))) eqn:All.
     + exfalso. assert (I : incl (seq 0 (length vs)) (map fst (a :: arms0))).
       { intros k Hk. apply covers_in. exact (proj1 (forallb_forall _ _) All k Hk). }
       pose proof (NoDup_incl_length (seq_NoDup (length vs) 0) I) as Len.
-      rewrite seq_length, map_length in Len. lia.
+      rewrite seq_length, map_length in Len. cbn [length] in Len. lia.
     + assert (E : exists k, In k (seq 0 (length vs)) /\ covers (a :: arms0) k = false).
       { clear - All. induction (seq 0 (length vs)) as [|k l IH]; [discriminate|].
-        cbn in All. destruct (covers (a :: arms0) k) eqn:C.
-        - destruct (IH All) as [k' [I C']]. exists k'. split; [right; exact I|exact C'].
+        cbn [forallb] in All. destruct (covers (a :: arms0) k) eqn:C.
+        - cbn [andb] in All. destruct (IH All) as [k' [I C']]. exists k'. split; [right; exact I|exact C'].
         - exists k. split; [left; reflexivity|exact C]. }
       destruct E as [k [I C]]. exists k. apply in_seq in I. split; [lia|exact C].
   - destruct W as [k [Lk C]]. exfalso.
